@@ -26,6 +26,7 @@ func main() {
 	shards := fs.Int("shards", 4, "number of .v shards")
 	only := fs.Int("only", -1, "run only this case index")
 	profile := fs.String("profile", "", "generator profile")
+	trace := fs.String("trace", "", "directory for the per-block trace (app kind)")
 	fs.Parse(os.Args[2:])
 	os.MkdirAll(*out, 0o755)
 	rep := NewReport(kind, *seed)
@@ -49,6 +50,16 @@ func main() {
 		ta := NewTestApp(GenOpts{Time: time.Unix(1690000000, 0).UTC()})
 		for i := lo; i < hi; i++ {
 			terms = append(terms, runDistrCase(ta, *seed, i, rep, *profile))
+			rep.Cases++
+		}
+	case "app":
+		require, caseType, fn = "Minter", "acase", "amismatches"
+		if *trace != "" {
+			os.MkdirAll(*trace, 0o755)
+			os.Remove(*trace + "/trace.txt")
+		}
+		for i := lo; i < hi; i++ {
+			terms = append(terms, runAppCase(*seed, i, rep, *profile, *trace)...)
 			rep.Cases++
 		}
 	case "sig":
